@@ -237,6 +237,11 @@ INTERNAL = {"IndexError", "ValueError", "TypeError", "struct.error", "KeyError",
             "ZeroDivisionError", "OutOfFuel"}
 
 
+class Hang(BaseException):
+    """raised by the CPU-time watchdog of main(); not an Exception, so that guards in the property modules
+    (`except Exception`) do not swallow it"""
+
+
 class Check:
     def __init__(self, pid, tier, seed, replay=None):
         self.pid, self.tier, self.seed, self.replay = pid, tier, seed, replay
@@ -553,6 +558,18 @@ def main(argv):
             rp = json.load(open(a.replay if os.path.exists(a.replay) else os.path.join(VERIF, a.replay)))
             seed, tier = int(rp.get("seed", seed)), rp.get("tier", tier)
         ck = Check(pid, tier, seed, rp)
+        # CPU-time watchdog (load independent): code under test that no longer terminates must not hang the check.
+        # The signal is delivered to the main thread between two bytecodes (also while it waits for a lock).
+        import signal
+        budget = float(os.environ.get("VERIF_CPU_BUDGET", "7200" if tier == "thorough" else "480"))
+
+        def _on_budget(signum, frame):
+            raise Hang("the exploration used more than %d s of processor time" % budget)
+        try:
+            signal.signal(signal.SIGPROF, _on_budget)
+            signal.setitimer(signal.ITIMER_PROF, budget, 20.0)     # and again every 20 s, should something swallow it
+        except (ValueError, OSError, AttributeError):     # not in the main thread / not available
+            pass
         try:
             if a.part:
                 mod.run_part(ck)
@@ -563,7 +580,11 @@ def main(argv):
                 ck.structural_ties()
         except (Infra, subprocess.TimeoutExpired, KeyboardInterrupt, MemoryError):
             raise
-        except Exception as e:
+        except (Exception, Hang) as e:
+            try:
+                signal.setitimer(signal.ITIMER_PROF, 0)
+            except Exception:
+                pass
             # The exploration itself died.  On the unchanged tree this never happens (every check is run with
             # several seeds before it is registered), so it is the code under test that behaved in a way the
             # harness did not foresee: the correspondence no longer checks.  When the exception was raised
@@ -575,13 +596,22 @@ def main(argv):
             print(text)
             frames = ["%s:%d %s" % (os.path.relpath(f.filename, REPO) if f.filename.startswith(REPO) else
                                     os.path.relpath(f.filename, VERIF), f.lineno, f.name) for f in tb[-8:]]
-            if inner.startswith(srcdir) and exc_name(e) in INTERNAL:
+            if isinstance(e, Hang):
+                where = [f for f in frames if f.startswith("src/")]
+                ck.fail("does-not-terminate" if where else "tie:exploration-does-not-terminate",
+                        "%s; the main thread was executing %s" % (e, (where or frames)[-1]),
+                        {"exception": repr(e), "frames": frames})
+            elif inner.startswith(srcdir) and exc_name(e) in INTERNAL:
                 ck.fail("uncaught-internal-exception-%s" % type(e).__name__,
                         "%s raised inside nfcpy (%s) ended the exploration: %s" % (type(e).__name__, frames[-1], e),
                         {"exception": repr(e), "frames": frames})
             else:
                 ck.fail("tie:exploration-aborted", "the harness could not complete the correspondence run: %s: %s"
                         % (type(e).__name__, e), {"exception": repr(e), "frames": frames})
+        try:
+            signal.setitimer(signal.ITIMER_PROF, 0)
+        except Exception:
+            pass
         return ck.finish()
     except Infra as e:
         print("INFRASTRUCTURE FAILURE (%s): %s" % (pid, e))
